@@ -278,6 +278,14 @@ func (a *analyzer) scope(ss ast.SelectionSet, parent *ast.Definition, depth int,
 			if e.Name == f.Alias && e.Alias != f.Alias {
 				a.set["op.aliasEqualsSiblingName"] = true
 			}
+			if e.Alias == f.Alias && a.differentObjectTypes(ff[j].cond, x.cond) {
+				// the same key in fragments on different object types never meets in one object: not a repeated key
+				a.set["op.sameKeyInFragmentsOfDifferentTypes"] = true
+				if len(f.SelectionSet) > 0 && selText(e.SelectionSet) != selText(f.SelectionSet) {
+					a.set["op.sameCompositeKeyInFragmentsOfDifferentTypes"] = true
+				}
+				continue
+			}
 			if e.Alias == f.Alias {
 				a.set["op.duplicateResponseKey"] = true
 				if len(f.SelectionSet) > 0 && selText(e.SelectionSet) != selText(f.SelectionSet) {
@@ -630,4 +638,12 @@ func hasVariable(v *ast.Value) bool {
 		}
 	}
 	return false
+}
+
+func (a *analyzer) differentObjectTypes(c1, c2 string) bool {
+	if c1 == "" || c2 == "" || c1 == c2 {
+		return false
+	}
+	d1, d2 := a.schema.Types[c1], a.schema.Types[c2]
+	return d1 != nil && d2 != nil && d1.Kind == ast.Object && d2.Kind == ast.Object
 }
